@@ -44,7 +44,7 @@ def cli_case(draw):
 
 def cases(tier):
     vec = st.one_of(c01.vector_case(VECTOR_FORMATS, tier), c01.vector_case(VECTOR_FORMATS, tier), c01.prefix_pair_case(OTSVG_PICO + COLR1, tier),
-                    c01.grid_case(VECTOR_FORMATS, tier)).map(lambda c: {"t": "vector", "vc": c})
+                    c01.grid_case(VECTOR_FORMATS, tier), c01.overlay_case(OTSVG_PICO + COLR1, tier), c01.paint_variants_case(OTSVG_PICO + COLR1, tier)).map(lambda c: {"t": "vector", "vc": c})
     raw = c02.raw_case(tier).map(lambda c: {"t": "raw", "rc": c})
     seq = c04.case_st(tier).map(lambda c: {"t": "seq", "sc": c})
     bmp = c14.bitmap_case().map(lambda c: {"t": "bitmap", "bc": c})
